@@ -4,8 +4,8 @@
    pr::ModuleDef and rq::RelationalQuery) and Gen/GenEntry.v (call chains of lib.rs) are regenerated from
    /repo on every run. *)
 From Coq Require Import List NArith ZArith Bool.
-From PV Require Import Lib.ListX Model.Json Model.Serde Model.SerdeStaged.
-From PV Require Import Proofs.SerdeCodecProofs Proofs.SerdeProofs Proofs.SerdeStaged.
+From PV Require Import Lib.ListX Model.Json Model.Serde Model.SerdeDoc Model.SerdeStaged.
+From PV Require Import Proofs.SerdeCodecProofs Proofs.SerdeProofs Proofs.SerdeDeProofs Proofs.SerdeStaged.
 From PV Require Import Gen.GenSerde Gen.GenEntry.
 Import ListNotations.
 
@@ -21,6 +21,21 @@ Print Assumptions c15_schema_ok.
 Theorem c15_roots_ok : desc_ok env dPL && desc_ok env dRQ = true.
 Proof. vm_compute. reflexivity. Qed.
 Print Assumptions c15_roots_ok.
+
+(* every type reachable from the two roots has a descriptor, and nothing else has one:
+   (a) inside the environment: the closure of the roots under DRef is closed (every name resolves), stable (a fixed
+       point) and exhausts the environment;
+   (b) against the Rust sources: the type names an independent textual scan reaches from pr::ModuleDef and
+       rq::RelationalQuery are exactly the (base names of the) descriptors plus the hand-written codecs. *)
+Theorem c15_reach_closed : closedb env [dPL; dRQ] && reach_stable env [dPL; dRQ] && all_reachable env [dPL; dRQ] = true.
+Proof. vm_compute. reflexivity. Qed.
+Print Assumptions c15_reach_closed.
+
+Theorem c15_rust_types_have_descriptors :
+  rust_types_covered env GenSerde.opaque_names GenSerde.rust_reachable
+  && descriptors_are_rust_types env GenSerde.rust_reachable = true.
+Proof. vm_compute. reflexivity. Qed.
+Print Assumptions c15_rust_types_have_descriptors.
 
 Theorem c15_entry_chains_ok :
   chains_ok GenEntry.compile_parse GenEntry.compile_resolve GenEntry.compile_gen
@@ -42,6 +57,54 @@ Print Assumptions c15_pl_roundtrip.
 Theorem c15_rq_roundtrip : forall v, wt env dRQ v -> json_ok v = true -> de env dRQ (ser env dRQ v) = Some v.
 Proof. intros v. apply (serde_roundtrip_ref env c15_schema_ok). Qed.
 Print Assumptions c15_rq_roundtrip.
+
+(* ---- documents: what `de` accepts (ANY JSON tree with distinct keys, e.g. one written by a language binding) ---- *)
+Theorem c15_de_wt : forall (E : Serde.env) (d : desc) (j : json) (v : value),
+  jnodup j = true -> de E d j = Some v -> wt E d v /\ json_ok v = true.
+Proof. exact de_wt. Qed.
+Print Assumptions c15_de_wt.
+
+Theorem c15_reserialise_stable : forall (E : Serde.env) (d : desc) (j : json) (v : value),
+  schema_ok E = true -> desc_ok E d = true -> jnodup j = true -> de E d j = Some v -> de E d (ser E d v) = Some v.
+Proof. exact reserialise_stable. Qed.
+Print Assumptions c15_reserialise_stable.
+
+Theorem c15_pl_rq_documents_stable : forall j v,
+  jnodup j = true ->
+  (de env dPL j = Some v -> de env dPL (ser env dPL v) = Some v) /\
+  (de env dRQ j = Some v -> de env dRQ (ser env dRQ v) = Some v).
+Proof.
+  assert (desc_ok env dPL = true /\ desc_ok env dRQ = true) as [H1 H2] by (apply andb_true_iff; exact c15_roots_ok).
+  intros j v Hn. split; intro H; eapply reserialise_stable; eauto using c15_schema_ok.
+Qed.
+Print Assumptions c15_pl_rq_documents_stable.
+
+(* ---- the field attributes, one lemma each (the steps of the generic theorem that are about one attribute) ---- *)
+(* skip_serializing_if (+ default / Option): what was skipped is what absence deserialises to *)
+Theorem c15_skip_absent_is_default : forall (f : field) (v : value),
+  skip_ok f = true -> skipped (fskip f) v = true ->
+  (if fdefault f then default_of (fdesc f) else if is_option (fdesc f) then Some VNone else None) = Some v.
+Proof. exact skipped_default. Qed.
+Print Assumptions c15_skip_absent_is_default.
+
+(* named fields are found by key wherever they are in the object: a field's key finds that field's own entry *)
+Theorem c15_field_lookup : forall (E : Serde.env) (own : list str) (fs : list field) (l : list value),
+  NoDup (map fname fs) ->
+  (forall f, In f fs -> fflatten f = true -> flatten_ok E own f = true) ->
+  forall f0 v0, In (f0, v0) (combine fs l) -> fflatten f0 = false -> In (fname f0) own ->
+  assoc (fname f0) (ser_fields E fs l) = assoc (fname f0) (ser_field E f0 v0).
+Proof. exact assoc_ser_fields. Qed.
+Print Assumptions c15_field_lookup.
+
+(* flatten: the entry the flattened enum wrote is the one FlatMapDeserializer picks *)
+Theorem c15_flatten_variant_found : forall (E : Serde.env) (own : list str) (fs : list field) (l : list value),
+  length (filter fflatten fs) <= 1 ->
+  (forall f, In f fs -> fflatten f = false -> In (fname f) own) ->
+  forall f0 v0, In (f0, v0) (combine fs l) -> fflatten f0 = true ->
+  forall vs tag sh pj, ser_field E f0 v0 = [(tag, pj)] -> mem tag own = false -> assoc tag vs = Some sh ->
+  find_variant vs own (ser_fields E fs l) = Some (tag, sh, pj).
+Proof. exact find_variant_ser_fields. Qed.
+Print Assumptions c15_flatten_variant_found.
 
 (* ---- hand-written codecs ---- *)
 Theorem c15_span_codec_roundtrip : forall id s e,
@@ -88,6 +151,19 @@ Section Stages.
              json_err core c15_schema_ok H1 H2 Hparse_wt Hresolve_wt Hcore_compose Hcore_compose1).
   Qed.
 
+  (* the same, with the hypotheses in the form the correspondence tests (stream model-de-ser): each stage value is
+     one the model reads from a document with distinct keys; typing and finiteness follow (c15_de_wt) *)
+  Theorem c15_staged_eq_direct_docs : forall s o,
+    (forall v, parse s = Ok v -> exists j, jnodup j = true /\ de env dPL j = Some v) ->
+    (forall v w, parse s = Ok v -> resolve v = Ok w -> exists j, jnodup j = true /\ de env dRQ j = Some w) ->
+    observe (staged s o) = observe (compile s o).
+  Proof.
+    assert (desc_ok env dPL = true /\ desc_ok env dRQ = true) as [H1 H2]
+      by (apply andb_true_iff; exact c15_roots_ok).
+    exact (staged_eq_direct_docs src opts sql err errc env dPL dRQ parse resolve gen tagNR tagSQL compose compose1
+             json_err core c15_schema_ok H1 H2 Hcore_compose Hcore_compose1).
+  Qed.
+
   Theorem c15_staged_breaks_without_roundtrip : forall s o pl,
     parse s = Ok pl -> de env dPL (ser env dPL pl) = None ->
     observe (staged s o) = inr (core (json_err (ser env dPL pl))).
@@ -97,6 +173,7 @@ Section Stages.
   Qed.
 End Stages.
 Print Assumptions c15_staged_eq_direct_partial.
+Print Assumptions c15_staged_eq_direct_docs.
 Print Assumptions c15_staged_breaks_without_roundtrip.
 
 (* the PL of `let m = 1e400`-like sources: Literal(Float(inf)) *)
